@@ -33,7 +33,7 @@ def plan(tier, seed):
     for k, o in enumerate(dict.fromkeys(
             orders(('a', 'b', 'c', 'd'), tier, seed, 4))):
         specs.append(dict(kind='all', names=('a', 'b', 'c', 'd'), order=o,
-                          sample=None if tier == 'thorough' else 1500,
+                          sample=None if tier == 'thorough' else 8000,
                           sub=k, hashseed=k))
     n4 = ('a', 'b', 'c', 'd', 'z')
     if tier == 'thorough':
@@ -44,7 +44,7 @@ def plan(tier, seed):
                               hashseed=k))
     else:
         for k, o in enumerate(dict.fromkeys(orders(n4, tier, seed, 6))):
-            specs.append(dict(kind='all', names=n4, order=o, sample=700,
+            specs.append(dict(kind='all', names=n4, order=o, sample=2500,
                               sub=k, hashseed=k))
     meta = dict(
         rule=RULE,
